@@ -8,7 +8,7 @@ R05.4 DialFailure / OpenFailure events are emitted only when the manager consume
 import re
 import guards
 from paths import Inter, refine_cuts, region_uncovered, region_second_hit, reachable_given
-from common import for_loops, slice_locals, exit_desc, short, trait_impl_bodies, may_return_err, field_calls
+from common import closure_operand, for_loops, slice_locals, exit_desc, short, trait_impl_bodies, may_return_err, field_calls
 
 EXPLANATION = ("Per-function pairing obligations over all MIR CFG paths of the TransportManager: after PeerState has been put "
                "into a dialing state every exit commits (pending_connections.insert) or rolls back; each established / pending "
@@ -51,6 +51,29 @@ def r05_1(ctx, fx):
             notes.append("%s.%s: impls=%d may_err=%s %s" % (meth, m, len(bodies), can, why))
             ctx.anchor("R05.1", "impls of Transport::%s" % m, len(bodies), 1 if fx.cfg == "default" else 3, cfg=fx.cfg)
             if not can:
+                cuts |= refine_cuts(fn, c, ["Ok", "?"])
+        # the same calls made from the closure of `iter.try_for_each(|..| transport.open(..))`: the combinator fails only if the
+        # closure does, and the closure hands on the result of an infallible open / dial (or `Ok(())`)
+        for c in fn.calls(r"Iterator>?::try_for_each$"):
+            cl = closure_operand(fx, fn, c.args[1]) if len(c.args) > 1 else None
+            if cl is None:
+                continue
+            ctx.bodies.add((fx.cfg, cl.key))
+            only_ok = True
+            for n_, sh in cl.ret_sites():
+                for x in sh:
+                    if x.startswith("Ok"):
+                        continue
+                    m2 = re.match(r"^call:.*transport::Transport::(open|dial)$", x)
+                    if m2 is None:
+                        only_ok = False
+                        continue
+                    bodies = trait_impl_bodies(fx, r"^transport::Transport$", m2.group(1))
+                    can, why = may_return_err(fx, bodies)
+                    notes.append("%s.try_for_each closure -> %s: impls=%d may_err=%s" % (meth, m2.group(1), len(bodies), can))
+                    if can:
+                        only_ok = False
+            if only_ok and cl.ret_sites():
                 cuts |= refine_cuts(fn, c, ["Ok", "?"])
         ctx.note("R05.1 feasibility %s (%s)" % (meth, fx.cfg), notes)
         it = Inter(fx, r"^$", extra_hit=lambda f, n, fn=fn, hits=hits: f is fn and n in hits)
